@@ -44,6 +44,13 @@ def handle : List String → Option String
       if w.length ≠ 16 + 8 * (n + 1) then none else
       let w := w.map (·.toUInt64)
       pure (hexBytes (ecb4x (w.take 16) (w.drop 16) n))
+  | ["aesct.enc256", key, blk] => do
+      -- the hand model of AES_256_ECB (key schedule + aes_ecb + aes_ecb4x over the generated primitives); the uninitialised
+      -- words of `blocks[]` are filled with a fixed pattern (the result does not depend on them: aes256_ecb_eq_spec)
+      let k ← parseBytes? key
+      let b ← parseBytes? blk
+      if k.length ≠ 32 ∨ b.length ≠ 16 then none else
+      pure (hexBytes (aes256Ecb (List.replicate 12 0xa5a5a5a5deadbeef) k b))
   | "aesct.keys" :: key :: ws => do
       let k ← parseBytes? key
       let w ← parseNats? ws
